@@ -45,3 +45,20 @@ Print Assumptions C13_generated_ids_unique_or_error.
 Print Assumptions C13_decorated_names_distinct.
 Print Assumptions C13_name_collision_refuted.
 Print Assumptions C13_prefixed_vs_decorated_refuted.
+
+(* every task file is imported as its own module, also when two paths derive the same module
+   name (a.b/ vs a_b/, one package name below two roots): F9, repaired *)
+Theorem C13_module_is_own_file : forall is_pkg ps m p f,
+  In (p, f) (import_all is_pkg m ps) -> f = p.
+Proof. exact import_all_own_file. Qed.
+
+Theorem C13_one_module_per_path : forall is_pkg ps m, map fst (import_all is_pkg m ps) = ps.
+Proof. exact import_all_paths. Qed.
+
+Theorem C13_equal_module_names_regression :
+  let p1 := [c_a_dot_b; c_task_m] in let p2 := [c_a_us_b; c_task_m] in
+  modname (fun _ => false) p1 = modname (fun _ => false) p2 /\
+  (let '(f1, m1) := import_one_old (fun _ => false) [] p1 in
+   fst (import_one_old (fun _ => false) m1 p2)) = p1 /\
+  map snd (import_all (fun _ => false) [] [p1; p2]) = [p1; p2].
+Proof. exact equal_module_names_regression. Qed.
